@@ -170,3 +170,112 @@ Proof.
   cbn [generate_seq map]. destruct (generate unroll sc e im) as [e' r] eqn:E.
   rewrite IH. f_equal. change r with (snd (e', r)). rewrite <- E. reflexivity.
 Qed.
+
+(* ---------- widths are non-negative ---------- *)
+Fixpoint lty_nn (l : lty) : Prop :=
+  match l with
+  | LLeaf _ len => 0 <= len
+  | LBad => True
+  | LArr e _ => lty_nn e
+  | LStruct fs => (fix all (fs : list (string * option string * lty)) : Prop :=
+                     match fs with [] => True | f :: fs' => lty_nn (snd f) /\ all fs' end) fs
+  end.
+
+Lemma lty_nn_struct fs : lty_nn (LStruct fs) <-> Forall (fun f => lty_nn (snd f)) fs.
+Proof.
+  cbn [lty_nn]. induction fs as [|f fs IH]; [split; [constructor|trivial]|].
+  split.
+  - intros [H1 H2]. constructor; [exact H1|now apply IH].
+  - intros H. inversion H; subst. split; [assumption|now apply IH].
+Qed.
+
+Lemma pow2_ceil_pos n : 0 < pow2_ceil n.
+Proof. unfold pow2_ceil. destruct (Z.of_nat n <=? 1); [lia|]. apply Z.pow_pos_nonneg; [lia|apply Z.log2_up_nonneg]. Qed.
+
+Lemma type_length_nn es t : forall l, type_length es t = Some l -> 0 <= l.
+Proof.
+  induction t as [n|n| | | |s|s|t IH n|t IH|t IH]; intros l H; cbn in H; try discriminate;
+    try (inversion H; lia).
+  - destruct (find_enum es s); cbn in H; [|discriminate]. inversion H. unfold enum_layout_len.
+    pose proof (pow2_ceil_pos (packed_size (enum_max s0))). lia.
+  - destruct (type_length es t) as [l'|]; cbn in H; [|discriminate]. inversion H. specialize (IH l' eq_refl). nia.
+Qed.
+
+Lemma leaf_of_nn es t : lty_nn (leaf_of es t).
+Proof. unfold leaf_of. destruct (type_length es t) eqn:E; cbn; [eapply type_length_nn; eauto|exact I]. Qed.
+
+Definition lenv_nn (en : lenv) : Prop := Forall (fun x => lty_nn (snd x)) en.
+
+Lemma lookup_nn name (en : lenv) l : lenv_nn en -> lookup name en = Some l -> lty_nn l.
+Proof.
+  induction en as [|[k a] en IH]; intros Hn H; cbn in H; [discriminate|].
+  inversion Hn; subst. destruct (String.eqb name k); [inversion H; subst; assumption|auto].
+Qed.
+
+Lemma lresolve_ty_nn unroll en es t : forall l, lenv_nn en -> lresolve_ty unroll en es t = Some l -> lty_nn l.
+Proof.
+  induction t as [n|n| | | |s|s|t IH n|t IH|t IH]; intros l Hn H; cbn [lresolve_ty] in H;
+    try (inversion H; subst; apply leaf_of_nn).
+  - eapply lookup_nn; eauto.
+  - destruct unroll.
+    + destruct (lresolve_ty true en es t) as [e|]; cbn in H; [|discriminate]. inversion H; subst. cbn. now apply IH.
+    + inversion H; subst. apply leaf_of_nn.
+Qed.
+
+Lemma lresolve_fields_nn unroll en es fs : forall r, lenv_nn en ->
+  lresolve_fields unroll en es fs = Some r -> Forall (fun f => lty_nn (snd f)) r.
+Proof.
+  induction fs as [|f fs IH]; intros r Hn H; cbn in H; [inversion H; constructor|].
+  destruct (lresolve_ty unroll en es (fty f)) as [a|] eqn:Ea; [|discriminate].
+  destruct (lresolve_fields unroll en es fs) as [rs|]; [|discriminate].
+  inversion H; subst. constructor; [cbn; eapply lresolve_ty_nn; eauto|now apply IH].
+Qed.
+
+Lemma lbuild_env_nn unroll es ss : forall en, lenv_nn en -> lenv_nn (lbuild_env unroll en es ss).
+Proof.
+  induction ss as [|s ss IH]; intros en Hn; cbn; [exact Hn|].
+  unfold lresolve_struct. destruct (lresolve_fields unroll en es (sort_by fid (sfields s))) as [r|] eqn:E; cbn.
+  - apply IH. apply Forall_app. split; [exact Hn|]. constructor; [|constructor].
+    cbn [snd]. apply lty_nn_struct. eapply lresolve_fields_nn; eauto.
+  - now apply IH.
+Qed.
+
+Definition st_nn (st : est) : Prop :=
+  match st with Some (ps, _) => Forall (fun p => 0 <= plen p) ps | None => True end.
+
+Lemma emit_idx_inv {A} (f : nat -> A -> est -> est) (I : est -> Prop) l :
+  Forall (fun x => forall i st, I st -> I (f i x st)) l -> forall i st, I st -> I (emit_idx f i l st).
+Proof.
+  induction l as [|x l IH]; intros HF i st Hst; cbn [emit_idx]; [exact Hst|].
+  inversion HF; subst. apply IH; auto.
+Qed.
+
+Lemma emit_rep_inv (f : nat -> est -> est) (I : est -> Prop) :
+  (forall i st, I st -> I (f i st)) -> forall n i st, I st -> I (emit_rep f i n st).
+Proof. intros Hf. induction n as [|n IH]; intros i st Hst; cbn [emit_rep]; [exact Hst|]. apply IH. now apply Hf. Qed.
+
+Lemma emit_nn im l : lty_nn l -> forall prefix name unit st, st_nn st -> st_nn (emit im l prefix name unit st).
+Proof.
+  induction l as [t len| |e n IH|fs IH] using lty_ind2; intros Hl prefix name unit st Hst; cbn [emit].
+  - destruct st as [[ps cur]|]; cbn; [|exact I]. apply Forall_app. split; [exact Hst|]. constructor; [exact Hl|constructor].
+  - exact I.
+  - apply emit_rep_inv; [|exact Hst]. intros i st' Hst'. now apply IH.
+  - apply lty_nn_struct in Hl. apply emit_idx_inv; [|exact Hst].
+    rewrite Forall_forall in *. intros f Hf i st' Hst'. apply IH; auto.
+Qed.
+
+Theorem generate_nonneg unroll sc e im ps :
+  snd (generate unroll sc e im) = Some ps -> Forall (fun p => 0 <= plen p) ps.
+Proof.
+  unfold generate, lresolve. destruct (lookup (itype im) _) as [l|] eqn:El; [|discriminate].
+  assert (Hl : lty_nn l).
+  { eapply lookup_nn; [|exact El]. apply lbuild_env_nn. constructor. }
+  destruct (emit_top im l (Some ([], 0))) as [[ps' cur]|] eqn:E; [|discriminate].
+  cbn [snd]. intros H. inversion H; subst.
+  destruct l as [t len| |e' n|fs]; try discriminate. cbn [emit_top] in E.
+  apply lty_nn_struct in Hl.
+  assert (Hst : st_nn (Some (ps, cur))).
+  { rewrite <- E. apply emit_idx_inv; [|constructor].
+    rewrite Forall_forall in *. intros f Hf i st' Hst'. apply emit_nn; auto. }
+  exact Hst.
+Qed.
